@@ -119,10 +119,15 @@ func (m *memtable) addWithID(id uint32, vector []float32, text string, metadata 
 //   - id: Document ID to remove
 //
 // Returns:
-//   - error: Error if removal fails
+//   - error: Error if removal fails or memtable is frozen
 func (m *memtable) remove(id uint32) error {
 	m.mu.Lock()
 	defer m.mu.Unlock()
+
+	// A frozen memtable may already be serialized, the removal would be lost
+	if m.frozen.Load() {
+		return fmt.Errorf("memtable is frozen")
+	}
 
 	return m.index.Remove(id)
 }
@@ -305,6 +310,16 @@ func (mq *memtableQueue) addWithID(id uint32, vector []float32, text string, met
 	// Write with the lock held so a concurrent rotation cannot freeze
 	// the memtable between selecting it and writing to it
 	return mq.mutable.addWithID(id, vector, text, metadata)
+}
+
+// removeFromMutable removes a document from the active memtable.
+// The read lock is held during the removal: rotation needs the write lock,
+// so the memtable cannot be frozen and flushed before the removal is applied.
+func (mq *memtableQueue) removeFromMutable(id uint32) error {
+	mq.mu.RLock()
+	defer mq.mu.RUnlock()
+
+	return mq.mutable.remove(id)
 }
 
 // Rotate creates a new mutable memtable and freezes the old one.
